@@ -87,10 +87,11 @@ def extract(g, X):
 
     def slices():
         out = []
-        ms = re.findall(r"let\s+\w+\s*=\s*&\w+\[(\d+)\.\.(\d+)\];", fp)
+        # `&u[0..32]` and `&u[..32]` are the same slice
+        ms = re.findall(r"let\s+\w+\s*=\s*&\w+\[\s*(\d*)\s*\.\.\s*(\d+)\s*\]\s*;", fp)
         if len(ms) != 6:
             raise ValueError("expected 6 slices of U and O")
-        out = [(int(a), int(b)) for a, b in ms]
+        out = [(int(a or 0), int(b)) for a, b in ms]
         return X.ctuples(out)
     g.attempt([("crypt_r56_slices", "list (N * N)")], "crypt.rs:from_password R5/R6 slices", slices)
 
@@ -99,7 +100,15 @@ def extract(g, X):
         w = re.search(r"while\s+(\w+)\s*<\s*(\d+)\s*\|\|\s*\1\s*<\s*\w+\[\w+\s*-\s*1\]\s*as\s+usize\s*\+\s*(\d+)", b)
         rep = re.search(r"for\s+\w+\s+in\s+1\s*\.\.\s*(\d+)", b)
         bs = re.search(r"let\s+(\w+)\s*:\s*usize\s*=\s*\w+\[\.\.(\d+)\]\.iter\(\)\.map\(\|\w+\|\s*\*\w+\s+as\s+usize\)\.sum\(\);\s*\w+\s*=\s*\1\s*%\s*(\d+)\s*\*\s*(\d+)\s*\+\s*(\d+)", b, flags=re.S)
-        arms = re.findall(r"(\d+)\s*=>\s*\{\s*sha(\d+)\.update", b)
+        # block size -> hash: integer patterns are disjoint, the order of the arms is immaterial
+        arms = []
+        bs_var = re.search(r"\bmatch\s+(\w+)\s*\{\s*\d+\s*=>", b).group(1)
+        for arm in X.match_arms(b, bs_var):
+            hm = re.match(r"sha(\d+)\.update", arm.expr)
+            for pt in arm.pats:
+                if hm and arm.guard is None and re.fullmatch(r"\d+", pt):
+                    arms.append((pt, hm.group(1)))
+        arms = X.ordered_by_key(arms, ["32", "48", "64"])
         out = re.search(r"\w+\.copy_from_slice\(&\w+\[\.\.(\d+)\]\);\s*\w+\s*$", b)
         return (w.group(2), w.group(3), rep.group(1), bs.group(2), bs.group(3), bs.group(4), bs.group(5),
                 X.ctuples([(int(a), int(h)) for a, h in arms]), out.group(1))
